@@ -14,11 +14,11 @@ def run(tier, seed):
     exa = vlib.build_engine("barrier", SRC, flavour="asan")
     cases = []
     threads = [1, 2, 3, 4, 5, 7, 8, 12, 16]
-    n = 18 if tier == "quick" else 120
+    n = 18 if tier == "quick" else 63
     for k in range(n):
         t = threads[k % len(threads)]
         law = (k // len(threads) + k) % 4
-        uses = (60000 if tier == "quick" else 600000) // (4 if law == 3 else 1) // (3 if t > 8 else 1)
+        uses = (60000 if tier == "quick" else 300000) // (4 if law == 3 else 1) // (3 if t > 8 else 1)
         e = exe if k % 2 else exa
         cases.append({"cmd": [e, str(t), str(uses), str(law), str(seed * 1000 + k)], "tag": "N=%d/law=%d" % (t, law), "w": t})
     results, batch, weight = [], [], 0
